@@ -8,7 +8,7 @@ Decides (cache validity and invalidation as effects, not transcript equality):
 (d) from inside the VM only DELETE / RENUM / NEW reach a mutator."""
 import re
 
-from lib.mir import Call, op_place
+from lib.mir import Call, op_const, op_place
 
 LISTING = "mach::listing::Listing"
 RUNTIME = "mach::runtime::Runtime"
@@ -269,6 +269,24 @@ def rule_b(ctx, cr):
                   "some path changes the stored program and returns without dirty = true: the "
                   "next RUN executes the previous compilation")
     ctx.floor("C04.b", "mutating runtime functions analysed", n, 5)
+    # the table above trusts `remove_range() == false` to mean "nothing removed": no literal
+    # `false` may be returned on a path that went through the removal
+    rr = cr.need_fn("mach::listing::Listing::remove_range")
+    ctx.touch(rr)
+    muts = rr.calls_matching(r"(BTreeMap::<K, V, A>::remove|Arc::<T, A>::make_mut)$")
+    if ctx.check(bool(muts), "C04.b", "remove_range/mutates", rr.span, "removal calls found"):
+        after = set()
+        for c in muts:
+            after |= rr.reach_set(c.bb)
+        lying = [st["span"] for b, i, st in rr.assigns()
+                 if st["place"]["local"] == 0 and not st["place"]["proj"] and b in after
+                 and st["rv"]["k"] == "use" and op_const(st["rv"]["op"]) is not None
+                 and op_const(st["rv"]["op"]).get("bool") is False]
+        ctx.check(not lying, "C04.b", "remove_range/reports-change", rr.span,
+                  "no `false` result after lines were removed",
+                  "remove_range returns the literal false on a path that removed lines (%s): "
+                  "Runtime::delete takes it for `nothing changed`, dirty stays false and RUN "
+                  "executes the deleted lines" % lying)
     # every store of a value that is not the literal `true`
     k = 0
     for p, f in sorted(cr.fns.items()):
